@@ -14,6 +14,8 @@ import ControlModel.Gen.StateAlgebra
 import ControlModel.Gen.MergeFacts
 import ControlModel.Proofs.RoleTree
 import ControlModel.Proofs.RoleTreeConc
+import ControlModel.Gen.FoldFacts
+import ControlModel.Proofs.RoleTraits
 
 open RoleTree RoleTree.Forest
 
@@ -178,6 +180,101 @@ theorem C11_children_order_irrelevant (n : Nat) (f : Forest) :
     | agg s u kids next =>
       obtain ⟨h1, h2⟩ := ih next
       exact ⟨by simp [swapAt, specState, h1], by simp [swapAt, specStatus?, h2]⟩
+
+/-! ## task hooks and the other traits of a task/call role
+
+  Model/RoleTraits.lean: leaves carry what the YAML says about them (task or call, critical,
+  hook = non-empty trigger) and the fold, the merge and the two update functions are written after
+  the Go code, which receives the whole role. The theorems below are for EVERY tree with ANY mix
+  of hooks and basic tasks and EVERY update sequence. Tied to the real roles by the same
+  differential runs (hook leaves are loaded from YAML with a `trigger:`), the two conditions the
+  model copies from the code by `C11_fold_filter_is_code`. -/
+
+/-- go/ast facts, re-extracted on every run. `aggregateState` asserts the child's type twice
+    (`*taskRole`, `*callRole`), leaves the loop body early in exactly two places — a task role that is
+    not critical, a call role that is not critical: `skipped` — and combines every other child
+    unconditionally; a task/call role calls its parent's `updateState` under `t.Critical == true`
+    (`forwards`) and its parent's `updateStatus` unconditionally; `aggregateStatus` leaves no child
+    out (its only early exit is the UNDEFINED one of `aggStatusFromT`). No trait other than
+    `Critical` (trigger, await, timeout) occurs in any of these conditions. -/
+theorem C11_fold_filter_is_code :
+    Gen.foldAsserts = [("taskR", "isTaskRole", "c.(*taskRole)"), ("callR", "isCallRole", "c.(*callRole)")] ∧
+    Gen.foldSkips = [("len(roles) == 0", "return"), ("isTaskRole && !taskR.Critical", "continue"),
+                     ("not(isTaskRole) && isCallRole && !callR.Critical", "continue"), ("", "return")] ∧
+    Gen.foldCombines = [("", "s = sm.INVARIANT"), ("", "s = s.X(c.GetState())")] ∧
+    Gen.leafForwards = [("*taskRole.updateState: t.Critical == true", "t.parent.updateState(s)"),
+                        ("*taskRole.updateStatus: ", "t.parent.updateStatus(s)"),
+                        ("*callRole.updateState: t.Critical == true", "t.parent.updateState(s)"),
+                        ("*callRole.updateStatus: ", "t.parent.updateStatus(s)")] ∧
+    Gen.statusFoldSkips = [("len(roles) == 0", "return"),
+                           ("len(roles) > 1 && status == task.UNDEFINED", "return"), ("", "return")] ∧
+    Gen.statusFoldCombines = [("len(roles) == 0", "status = task.UNDEFINED"), ("", "status = roles[0].GetStatus()"),
+                              ("len(roles) > 1", "status = status.X(c.GetStatus())")] := by
+  decide
+
+/-- The trigger plays no role: two trees that differ only in WHICH task/call roles are hooks report
+    the same state and status at every role after every update sequence. -/
+theorem C11_trigger_irrelevant (f g : TForest) (us : List Update) (h : forget f = forget g) :
+    dumpT (runT f us) = dumpT (runT g us) := by
+  rw [dumpT_forget, dumpT_forget, runT_forget, runT_forget, h]
+
+/-- State, trees with hooks: from a freshly loaded tree, after any sequence of leaf updates every
+    aggregator reports the fold of ALL its critical task/call descendants — critical hooks take part
+    like any critical task, non-critical ones do not (`specStateT` never looks at the hook flag).
+    Same excluded hypothesis as `C11_state_seq_partial` (finding `barren_aggregator`). -/
+theorem C11_state_seq_hooks_partial (f : TForest) (us : List Update)
+    (hinit : allInitT f = true) (hnb : noBarrenT f = true) :
+    stateOkT (runT f us) = true := by
+  rw [stateOkT_forget, runT_forget]
+  exact C11_state_seq_partial (forget f) us (allInitT_forget f ▸ hinit) (noBarrenT_forget f ▸ hnb)
+
+/-- …and from any locally consistent tree with hooks. -/
+theorem C11_state_seq_hooks_from_consistent (f : TForest) (us : List Update) (h : ConsistentT f) :
+    stateOkT (runT f us) = true := by
+  rw [stateOkT_forget, runT_forget]
+  exact C11_state_seq_from_consistent (forget f) us h
+
+/-- Status, trees with hooks: the fold of all descendants, hooks included. -/
+theorem C11_status_seq_hooks (f : TForest) (us : List Update)
+    (hinit : allInitT f = true) (hne : noEmptyAggT f = true) :
+    statusOkT (runT f us) = true := by
+  rw [statusOkT_forget, runT_forget]
+  exact C11_status_seq (forget f) us (allInitT_forget f ▸ hinit) (noEmptyAggT_forget f ▸ hne)
+
+/-- Sequential "never lost", for every kind of critical leaf: whenever, after any update sequence, a
+    critical task/call role — hook or not — holds ERROR, every aggregator above it (the root in
+    particular) reports ERROR; no later update of a sibling can hide it. -/
+theorem C11_critical_error_kept (f : TForest) (us : List Update)
+    (hinit : allInitT f = true) (hnb : noBarrenT f = true) :
+    errKeptT (runT f us) = true :=
+  stateOk_errKept _ (C11_state_seq_hooks_partial f us hinit hnb)
+
+/-- What the roles report is a function of what the leaves hold: two update sequences — e.g. the
+    same updates to different leaves in another arrival order — that leave the leaves equal leave
+    every aggregator's state equal. -/
+theorem C11_arrival_order_irrelevant (f : TForest) (us₁ us₂ : List Update)
+    (hinit : allInitT f = true) (hnb : noBarrenT f = true)
+    (hl : sameLeavesT (runT f us₁) (runT f us₂) = true) :
+    (dumpT (runT f us₁)).map (·.1) = (dumpT (runT f us₂)).map (·.1) :=
+  sameLeaves_states _ _ hl (C11_state_seq_hooks_partial f us₁ hinit hnb)
+    (C11_state_seq_hooks_partial f us₂ hinit hnb)
+
+/-- Non-vacuity and the worked case: root → [agg → [critical task HOOK, critical task], critical task].
+    The hook fails and its sibling reports CONFIGURED, in both orders: the hypotheses hold, the
+    leaves end equal, and agg and root report ERROR either way (the hook's ERROR first enters through
+    the merge shortcut, then has to survive the re-fold the sibling's update causes). -/
+example :
+    let f : TForest := .agg .STANDBY .INACTIVE
+      (.agg .STANDBY .INACTIVE
+        (.leaf false ⟨true, true⟩ .STANDBY .INACTIVE (.leaf false ⟨true, false⟩ .STANDBY .INACTIVE .nil))
+        (.leaf false ⟨true, false⟩ .STANDBY .INACTIVE .nil)) .nil
+    let a : List Update := [.state [0, 0] .ERROR, .state [0, 1] .CONFIGURED]
+    let b : List Update := [.state [0, 1] .CONFIGURED, .state [0, 0] .ERROR]
+    allInitT f = true ∧ noBarrenT f = true ∧ noEmptyAggT f = true ∧
+    sameLeavesT (runT f a) (runT f b) = true ∧ critErrT (runT f a) = true ∧
+    (dumpT (runT f a)).map (·.1) = [.ERROR, .ERROR, .ERROR, .CONFIGURED, .STANDBY] ∧
+    (dumpT (runT f b)).map (·.1) = [.ERROR, .ERROR, .ERROR, .CONFIGURED, .STANDBY] := by
+  decide
 
 /-! ## concurrent delivery: "an ERROR of a critical task is never lost nor invented at the root,
     also when updates arrive concurrently"
